@@ -97,6 +97,9 @@ def requiredCoverage : List (String × String × String × List String) := [
   ("queue.DelayedPriorityQueue", "queue", "mutex", []),
   ("config.TxnPoliciesAccessor", "txnVersions", "mutex", []),
   ("utils.MemoryCache", "cache", "mutex", []),
+  -- removal (Del and every TTL sleeper) looks the entry up, subtracts its size and deletes it in ONE section:
+  ("utils.MemoryCache", "cache", "mutex", ["clearKey"]),
+  ("utils.MemoryCache", "currentCacheSize", "mutex", ["clearKey"]),
   ("routing.StreamsData", "stream", "streamLock", []),
   ("processorqueue.Request", "state", "inProcessMutex", []),
   ("processorqueue.RequestWatcher", "requests", "requestsMapMutex", []),
